@@ -414,6 +414,8 @@ func (y *c18L2Sys) ops() []c18L2Op {
 		{"UpdateOracle(3 voters, all pairs, stale timestamp)", nil, "oracle-stale"},
 		// two of the voters also price a pair this chain does not track (an L2 follows a subset of L1's pairs)
 		{"UpdateOracle(3 voters, two also price an untracked pair)", nil, "oracle-untracked"},
+		// …and votes that price the untracked pair instead of one of the tracked ones (no more ids than the chain tracks)
+		{"UpdateOracle(3 voters, two price an untracked pair in place of a tracked one)", nil, "oracle-untracked-few"},
 		{"RegisterPlan(h,o3,k3)", nil, "plan"},
 		{"NextBlock", nil, "block"},
 	}
@@ -447,6 +449,8 @@ func (y *c18L2Sys) message(op c18L2Op, w *world.L2, ctx sdk.Context) sdk.Msg {
 		votes = []c15Vote{{"hv1", shPriceP}, {"hv2", shPriceQ}, {"hv3", shNoBTC}}
 	case "oracle-untracked":
 		votes = []c15Vote{{"hv1", shWithUntracked}, {"hv2", shWithUntracked}, {"hv3", shPriceP}}
+	case "oracle-untracked-few":
+		votes = []c15Vote{{"hv1", shUntrackedFew}, {"hv2", shUntrackedFew}, {"hv3", shPriceP}}
 	case "oracle-stale":
 		votes = []c15Vote{{"hv1", shPriceP}, {"hv2", shPriceP}, {"hv3", shPriceP}}
 		if newest < 1 {
@@ -499,7 +503,7 @@ func (y *c18L2Sys) Step(s *c18L2State, l engine.Letter) (*c18L2State, string, *e
 		var o c18Obs
 		ok := false
 		switch op.kind {
-		case "msg", "oracle", "oracle-untracked", "oracle-stale":
+		case "msg", "oracle", "oracle-untracked", "oracle-untracked-few", "oracle-stale":
 			var r world.DeliverResult
 			if limit >= 0 {
 				r = w.DeliverGas(ctx, y.message(op, w, ctx), uint64(limit))
